@@ -2,7 +2,7 @@
 # usage: tools/with_patch.sh <patch-file> <command...>
 # Applies a patch to /repo's working tree, runs the command from /verif, and always restores /repo.
 set -u
-patch="$1"; shift
+patch="$(realpath "$1")"; shift
 if [ -n "$(git -C /repo status --porcelain --untracked-files=no)" ]; then echo "with_patch: /repo has uncommitted changes" >&2; exit 2; fi
 git -C /repo apply "$patch" || { echo "with_patch: patch does not apply" >&2; exit 2; }
 trap 'git -C /repo checkout -- . ; git -C /repo clean -fdq -- src logos-codegen/src logos-cli/src logos-derive/src 2>/dev/null' EXIT
